@@ -68,12 +68,25 @@ def machinery_hash() -> str:
 
 def dyadic(x) -> dict | None:
     """float/int -> {"n","e"} with x = n / 2**e, or None when outside the model's value box."""
-    fr = Fraction(x)
+    try:
+        fr = Fraction(x)
+    except (ValueError, OverflowError):   # NaN / infinity
+        return None
     d = fr.denominator
     e = d.bit_length() - 1
     if d != 1 << e or abs(fr.numerator) > 2**31 - 1 or e > 14:
         return None
     return {"n": fr.numerator, "e": e}
+
+
+def garbage(x) -> bool:
+    """A native double that no exact computation on the harness's small dyadic inputs can produce: not finite, or
+    with more than 20 fractional bits (magnitudes beyond the box are merely 'outside', not garbage)."""
+    import math
+
+    if not isinstance(x, (int, float)) or not math.isfinite(x):
+        return True
+    return Fraction(x).denominator > (1 << 20)
 
 
 def undyadic(d: dict) -> float:
